@@ -38,6 +38,7 @@ structure Ctx where
   runCmd : List (Nat × Nat) := []                 -- run number -> command id
   multi : Bool := false
   lastClear : String := "D"                       -- clear strategy at the last snapshot
+  listCid : Option Nat := none                    -- command whose items the displayed list held at the last snapshot
   transientSel : Bool := false                    -- a selection action was issued while the list still belonged to another command run
   ed : SkimModel.Editor.Ed := {}                  -- the query editor driven by the same editing events (C18's model)
 
@@ -123,7 +124,7 @@ def judgeOut (c : Ctx) (s : S) (kvs : List String) : Ctx :=
   let want : List Nat :=
     if c.multi && !keys.isEmpty then keys.map (fun k => itemId (cidOf k.1) (k.2 + c.hl))
     else match c.lastCur with
-      | some i => [itemId c.cid (i + c.hl)]
+      | some i => [itemId (c.listCid.getD c.cid) (i + c.hl)]   -- the item DISPLAYED on the cursor row (a re-run may be pending)
       | none => []
   let got := decNats (kvGet kvs "items")
   -- selections made during the transient of a command re-run (old list, new run number) have unspecified
@@ -190,7 +191,8 @@ def applyTok (m : Nat → Nat → Bool) (cs : Ctx × S) (tok : List String) : Ct
       let c4 := if !c3.lastWasSel && implSel != c3.lastSel then
                   flagBad c3 s!"selection-changed-by-non-selection-event:{showKeys c3.lastSel}->{sel}"
                 else c3
-      ({ c4 with lastSel := implSel, lastClear := clear }, s)
+      -- no clear pending => the list holds items of the current command only (or is empty)
+      ({ c4 with lastSel := implSel, lastClear := clear, listCid := if clear == "D" then some c4.cid else c4.listCid }, s)
   | ["DEC", kind, n] =>
       -- the real code took a select-1/exit-0 decision inside the heart beat just replayed
       let quiet := s.unread.isEmpty && s.buf.isEmpty && !s.live && s.mc.isNone &&
@@ -209,10 +211,19 @@ def applyTok (m : Nat → Nat → Bool) (cs : Ctx × S) (tok : List String) : Ct
         | ["add", n] => n.toNat?.map (fun k => SkimModel.Editor.Action.addChar (Char.ofNat k))
         | ["bdel"] => some .backwardDeleteChar
         | ["ti"] => some .toggleInteractive
+        | ["prevh"] => some .previousHistory
+        | ["nexth"] => some .nextHistory
         | _ => none
       (match a with
        | some a => ({ c with ed := SkimModel.Editor.act cls c.ed a, step := c.step - 1 }, s)
        | none => (flagMis c s!"bad-editing-event:{e}", s))
+  | ["DQ", qid, cid] =>
+      -- C01, "nothing computed for an earlier query / command": at the end of every event-loop iteration the text the
+      -- query line DISPLAYS is the query the matcher was last started with, and the command it stands for is the one
+      -- whose output is being read (999 / 99 = a text nothing was ever computed for)
+      let c1 := if qid.toNat? == some s.q then c else flagBad c s!"displayed-query-is-not-the-matched-one:displayed={qid},matched={s.q}"
+      let c2 := if cid.toNat? == some c1.cid then c1 else flagBad c1 s!"displayed-command-is-not-the-running-one:displayed={cid},running={c1.cid}"
+      (c2, s)
   | "OUT" :: kvs => (judgeOut c s kvs, s)
   | _ => (flagMis c s!"bad-token:{" ".intercalate tok}", s)
 
@@ -259,9 +270,15 @@ def answer (_case impl : String) : String :=
   let inter := match (toks.find? (fun t => t.head? == some "OUT")) with
     | some t => kvGet t "inter" == "1"
     | none => false
+  -- histories arrive oldest first; the stack top is the last
+  let histOf (k : String) : List (List Char) := match (toks.find? (fun t => t.head? == some "OUT")) with
+    | some t => let v := kvGet t k
+                if v == "_" || v == "" then [] else (v.splitOn "+").map decStr
+    | none => []
   let ed0 : SkimModel.Editor.Ed :=
     { fz := { before := initQ.reverse }, cmd := { before := if inter then ['0'] else [] },
-      mode := if inter then .cmd else .query }
+      mode := if inter then .cmd else .query,
+      fzH := { before := (histOf "hist").reverse }, cmdH := { before := (histOf "chist").reverse } }
   let c0 := { c0 with cid := cid0, runCmd := [(run0, cid0)], multi := o.multi, ed := ed0 }
   let m : Nat → Nat → Bool := fun q x => hitQ c0 q x
   let s0 : S := { (initWith o q0 (srcOf c0 cid0) : S) with run := run0 }
